@@ -294,6 +294,205 @@ theorem refs_in_grid_needed :
     (load [{ r := 0, cells := [{ r := .orig (some (-5, 1)), hv := true, id := some 0 }] }]).isPanic = true := by
   decide
 
+/-! ## decode sites repaired in round 2 (style sheet, workbook view, comments, rich text,
+conditional formats, theme colours, merged cells, compound file, agile decryption) -/
+
+/-- the guards and the exact index sites of those functions are the ones the model transcribes -/
+theorem guards_sites :
+    "idx < 0 || s.CellXfs == nil || len(s.CellXfs.Xf) <= idx" ∈ Facts.C14.conds_GetStyle ∧
+    Facts.C14.index_GetStyle = ["s.CellXfs.Xf[idx]", "extractStyleCondFuncs[\"fill\"]", "s.Fills.Fill[*xf.FillID]",
+      "extractStyleCondFuncs[\"border\"]", "s.Borders.Border[*xf.BorderID]", "extractStyleCondFuncs[\"font\"]",
+      "s.Fonts.Font[*xf.FontID]", "extractStyleCondFuncs[\"alignment\"]", "extractStyleCondFuncs[\"protection\"]"] := by decide
+
+/-- the three conditions under which `GetStyle` indexes a table require `0 <= id < len(table)` -/
+theorem guards_styleConds :
+    "\"fill\": return (xf.ApplyFill == nil || (xf.ApplyFill != nil && *xf.ApplyFill)) && xf.FillID != nil && s.Fills != nil && *xf.FillID >= 0 && *xf.FillID < len(s.Fills.Fill)" ∈ Facts.C14.extractStyleCondFuncs ∧
+    "\"border\": return (xf.ApplyBorder == nil || (xf.ApplyBorder != nil && *xf.ApplyBorder)) && xf.BorderID != nil && s.Borders != nil && *xf.BorderID >= 0 && *xf.BorderID < len(s.Borders.Border)" ∈ Facts.C14.extractStyleCondFuncs ∧
+    "\"font\": return (xf.ApplyFont == nil || (xf.ApplyFont != nil && *xf.ApplyFont)) && xf.FontID != nil && s.Fonts != nil && *xf.FontID >= 0 && *xf.FontID < len(s.Fonts.Font)" ∈ Facts.C14.extractStyleCondFuncs := by decide +kernel
+
+/-- workbook view, default font, theme colour, comments, rich text, conditional formats -/
+theorem guards_sites2 :
+    "activeTab >= 0 && len(wb.Sheets.Sheet) > activeTab && wb.Sheets.Sheet[activeTab].SheetID != 0" ∈ Facts.C14.conds_getActiveSheetID ∧
+    Facts.C14.index_getActiveSheetID = ["wb.BookViews.WorkBookView[0]", "wb.Sheets.Sheet[activeTab]", "wb.Sheets.Sheet[activeTab]", "wb.Sheets.Sheet[0]"] ∧
+    "s.Fonts == nil || len(s.Fonts.Font) == 0 || s.Fonts.Font[0] == nil" ∈ Facts.C14.conds_readDefaultFont ∧
+    "font.Name == nil || font.Name.Val == nil" ∈ Facts.C14.conds_GetDefaultFont ∧
+    Facts.C14.conds_ThemeColor.head? = some "tint == 0 || len(baseColor) < 6" ∧
+    Facts.C14.index_ThemeColor = ["baseColor[:2]", "baseColor[2:4]", "baseColor[4:6]"] ∧
+    "cmt.AuthorID >= 0 && cmt.AuthorID < len(cmts.Authors.Author)" ∈ Facts.C14.conds_GetComments ∧
+    "v.T != nil" ∈ Facts.C14.conds_getCellRichText ∧
+    Facts.C14.conds_extractCondFmtCellIs = ["len(c.Formula) == 2", "len(c.Formula) > 0"] ∧
+    Facts.C14.index_extractCondFmtCellIs = ["operatorType[c.Operator]", "c.Formula[0]", "c.Formula[1]", "c.Formula[0]"] := by decide
+
+/-- merged cells: rectangle guard, no caching of invalid references, the matrix index sites -/
+theorem guards_merge :
+    "len(ws.MergeCells.Cells[i].rect) == 4 && cellInRange([]int{col, row}, ws.MergeCells.Cells[i].rect)" ∈ Facts.C14.conds_mergeCellsParser ∧
+    Facts.C14.index_cellInRange = ["cell[0]", "ref[0]", "cell[0]", "ref[2]", "cell[1]", "ref[1]", "cell[1]", "ref[3]"] ∧
+    Facts.C14.conds_mergeCellRect = ["mc.rect == nil", "!strings.Contains(mergedCellsRef, \":\")", "err != nil"] ∧
+    Facts.C14.conds_overlapRange = ["mergeCell == nil", "rect, err = mergeCell.Rect(); err != nil", "x1 > col", "x2 > col", "y1 > row", "y2 > row"] ∧
+    "rows == 0 || cols == 0" ∈ Facts.C14.conds_mergeOverlapCells ∧
+    "matrix[x1][y1]" ∈ Facts.C14.index_mergeOverlapCells := by decide
+
+/-- compound file header, stream extraction, agile descriptor validation and the slices behind it -/
+theorem guards_agile :
+    Facts.C14.conds_checkCompoundFileHeader = ["len(raw) < 512", "sectorShift != 9 && sectorShift != 12",
+      "uint64(binary.LittleEndian.Uint32(raw[offset:offset+4])) > maxSectors"] ∧
+    Facts.C14.index_checkCompoundFileHeader = ["raw[30:32]", "raw[offset:offset+4]"] ∧
+    Facts.C14.conds_extractPartLimit.head? = some "entry.Size < 0 || entry.Size > limit" ∧
+    Facts.C14.conds_agileDecrypt.head? = some "len(encryptionInfoBuf) < 8" ∧
+    Facts.C14.index_agileDecrypt = ["encryptionInfoBuf[8:]", "encryptionInfo.KeyEncryptors.KeyEncryptor[0]"] ∧
+    Facts.C14.conds_checkAgileEncryptionInfo = ["len(encryption.KeyEncryptors.KeyEncryptor) == 0",
+      "encryption.KeyData.BlockSize != aes.BlockSize", "hashing(encryption.KeyData.HashAlgorithm) == nil",
+      "encryption.KeyEncryptors.KeyEncryptor[0].EncryptedKey.KeyBits < 0",
+      "spinCount := encryption.KeyEncryptors.KeyEncryptor[0].EncryptedKey.SpinCount; spinCount < 0 || spinCount > 10000000"] ∧
+    Facts.C14.conds_convertPasswdToKey = ["err != nil", "err != nil", "len(key) < keyBytes", "len(key) > keyBytes"] ∧
+    "key[:keyBytes]" ∈ Facts.C14.index_convertPasswdToKey ∧
+    Facts.C14.conds_decrypt = ["err != nil", "len(iv) != block.BlockSize() || len(input)%block.BlockSize() != 0"] ∧
+    Facts.C14.conds_decryptPackage = ["len(input) < offset", "end > len(input)", "(end + offset) < len(input)", "remainder != 0", "err != nil", "err != nil"] ∧
+    Facts.C14.index_decryptPackage = ["input[start+offset : end+offset]", "input[start+offset : end]"] ∧
+    Facts.C14.index_createIV = ["iv[:encryptedKey.BlockSize]"] := by decide
+
+/-- `GetStyle` never indexes the cell-format, fill, border or font tables out of range: every style
+index, every fill / border / font id (negative, beyond the table), every table size, tables absent -/
+theorem no_panic_getStyle (i : StyleIn) : (getStyle i).isPanic = false := no_panic_getStyle' i
+
+/-- `getActiveSheetID`: every `activeTab` (negative, beyond the list), every sheet list (empty, ids 0) -/
+theorem no_panic_activeSheetID (hasView : Bool) (activeTab : Int) (ids : List Int) :
+    (activeSheetID hasView activeTab ids).isPanic = false := no_panic_activeSheetID' hasView activeTab ids
+
+/-- `readDefaultFont` / `GetDefaultFont`: no font table, empty table, nil font, font without name / value -/
+theorem no_panic_getDefaultFont (nFonts : Option Nat) (firstNil hasName hasVal : Bool) :
+    (getDefaultFont nFonts firstNil hasName hasVal).isPanic = false := no_panic_getDefaultFont' _ _ _ _
+
+/-- `ThemeColor`: a base colour of any length, any tint -/
+theorem no_panic_themeColor (len : Nat) (tintZero : Bool) : (themeColor len tintZero).isPanic = false :=
+  no_panic_themeColor' len tintZero
+
+/-- `GetComments`: every `authorId`, every number of authors -/
+theorem no_panic_commentAuthor (authorId : Int) (nAuthors : Nat) :
+    (commentAuthor authorId nAuthors).isPanic = false := no_panic_commentAuthor' authorId nAuthors
+
+/-- `getCellRichText`: every list of runs, with or without `<t>` -/
+theorem no_panic_richText (runs : List Bool) : (richRuns runs).isPanic = false := no_panic_richRuns' runs
+
+/-- `extractCondFmtCellIs`: every number of `<formula>` elements -/
+theorem no_panic_condFmtCellIs (nFormula : Nat) : (condFmtCellIs nFormula).isPanic = false := no_panic_condFmt' nFormula
+
+/-- `mergeCellsParser` / `cellInRange`: every cached rectangle slice (empty for `ref=""`, any length) -/
+theorem no_panic_mergeCellHit (col row : Int) (rect : List Int) : (mergeCellHit col row rect).isPanic = false :=
+  no_panic_mergeCellHit' col row rect
+
+/-- `xlsxMergeCell.Rect` caches a rectangle only when the reference parses: an invalid reference is an
+error on EVERY call, never a cached rectangle -/
+theorem rect_not_cached_on_error (cached' : Option (List Int)) (r : List Int)
+    (h : rectOf none none = .ok (r, cached')) : False := by
+  simp [rectOf] at h
+
+/-- `mergeOverlapCells`: for every list of merged-cell rectangles with coordinates ≥ 1 (what
+`rangeRefToCoordinates` returns, C20; sorted or not, overlapping or not) every `matrix[x][y]` access of
+the paint loops and of the corner test is inside the `cols × rows` matrix sized by `overlapRange` -/
+theorem no_panic_mergeMatrix (rs : List Rc) (h : ∀ r ∈ rs, 1 ≤ r.x1 ∧ 1 ≤ r.y1 ∧ 1 ≤ r.x2 ∧ 1 ≤ r.y2) :
+    (mergeMatrix rs).isPanic = false := no_panic_mergeMatrix' rs h
+
+/-- open entry `crash:GetMergeCells`: the bound that DOES hold — the matrix of `mergeOverlapCells` has
+at most TotalRows × MaxColumns cells (it is dense, hence up to 2^34 pointers for one far-corner merge) -/
+theorem mergeMatrix_bounded (rs : List Rc)
+    (h : ∀ r ∈ rs, r.x1 ≤ (Facts.MaxColumns : Int) ∧ r.x2 ≤ (Facts.MaxColumns : Int) ∧
+                   r.y1 ≤ (Facts.TotalRows : Int) ∧ r.y2 ≤ (Facts.TotalRows : Int))
+    (rows cols : Int) (hm : mergeMatrix rs = .ok (rows, cols)) :
+    rows ≤ (Facts.TotalRows : Int) ∧ cols ≤ (Facts.MaxColumns : Int) := by
+  unfold mergeMatrix at hm
+  have hb := overlapRange_le (Facts.TotalRows : Int) (Facts.MaxColumns : Int) rs (0, 0) (by simp) (by simp)
+    (fun r hr => by have := h r hr; omega)
+  generalize overlapRange rs (0, 0) = res at hm hb
+  obtain ⟨a, b⟩ := res
+  simp only at hm hb
+  split at hm
+  · cases hm; constructor <;> omega
+  · split at hm
+    · cases hm
+    · split at hm
+      · cases hm; exact hb
+      · cases hm
+
+/-- … and the witness that the dense matrix really reaches that size: one merge in the far corner -/
+theorem mergeMatrix_far_corner :
+    mergeMatrix [{ x1 := 16383, y1 := 1048575, x2 := 16384, y2 := 1048576 }] = .ok (1048576, 16384) := by
+  simp [mergeMatrix, overlapRange, paintOK]
+
+/-- `checkCompoundFileHeader`: every file length, sector shift and declared sector count -/
+theorem no_panic_cfbHeader (len shift : Nat) (counts : List Nat) : (checkCfbHeader len shift counts).isPanic = false :=
+  no_panic_checkCfbHeader' len shift counts
+
+/-- clause "allocate out of proportion": an accepted header declares at most `len / sectorSize` sectors in
+each table the compound-file reader sizes before reading it -/
+theorem cfb_tables_bounded (len shift : Nat) (counts : List Nat) (h : checkCfbHeader len shift counts = .ok ()) :
+    ∀ c ∈ counts, c ≤ len / 2 ^ shift := by
+  unfold checkCfbHeader at h
+  split at h; · cases h
+  split at h; · cases h
+  split at h; · cases h
+  split at h; · cases h
+  split at h
+  · cases h
+  · rename_i hany
+    intro c hc
+    have : ¬ (decide (c > len / 2 ^ shift) = true) := fun hd => hany (List.any_eq_true.mpr ⟨c, hc, hd⟩)
+    simpa using this
+
+/-- … and a stream buffer is never larger than the container (`extractPartLimit`), whatever size the
+directory entry claims -/
+theorem extract_alloc_bounded (size : Int) (limit : Nat) : extractAlloc size limit ≤ limit :=
+  extractAlloc_le size limit
+
+/-- a row rebuilt by `checkRow` (sized by its greatest column) is at most MaxColumns wide -/
+theorem checkRow_width_bounded (rowNum : Int) (rw rw' : Row) (h : checkRowOne rowNum rw = .ok rw') :
+    rw'.cells.length ≤ Facts.MaxColumns ∨ rw'.cells.length = rw.cells.length :=
+  checkRowOne_width rowNum rw rw' h
+
+/-- agile descriptor validation and key derivation, full strength: for every decoded descriptor
+(number of key encryptors, block size, hash algorithm, key bits, spin count, salts) the validation and,
+once it passed, the key slice `key[:keyBytes]`, the IV slice `iv[:BlockSize]` and the chunk padding
+`len % BlockSize` never panic; the spin loop runs at most 10 000 000 times -/
+theorem no_panic_agile_validation (i : AgIn) :
+    (agileCheck i).isPanic = false ∧
+    (agileCheck i = .ok () →
+      (agileKeyLen i).isPanic = false ∧ (createIV i).isPanic = false ∧
+      (∀ n, (padChunk n i.blockSize).isPanic = false) ∧ 0 ≤ i.spinCount ∧ i.spinCount ≤ 10000000) := by
+  refine ⟨no_panic_agileCheck' i, fun h => ?_⟩
+  have hc := agileCheck_ok h
+  exact ⟨no_panic_agileKeyLen' i hc.1 hc.2.2.2.1, no_panic_createIV' i hc.2.1,
+    fun n => no_panic_padChunk' n _ hc.2.1, hc.2.2.2.2.1, hc.2.2.2.2.2⟩
+
+/-- `agileDecrypt`, partial: never panics provided the EncryptedPackage length leaves room for the
+8-byte offset in its last 4096-byte chunk (`tailOK`: length ≤ 4096, or length mod 4096 = 0 or ≥ 8) -/
+theorem no_panic_agileDecrypt_partial (i : AgIn) (ht : tailOK i.pkgLen = true) : (agileDecrypt i).isPanic = false := by
+  unfold agileDecrypt
+  split; · rfl
+  split
+  · rename_i h1 h2; exfalso; apply h2; simp [sliceOK]; omega
+  split; · rfl
+  apply bind_no_panic _ _ (no_panic_agileCheck' i)
+  intro _ hc
+  have hk := agileCheck_ok hc
+  apply bind_no_panic _ _ (no_panic_agileKeyLen' i hk.1 hk.2.2.2.1)
+  intro k _
+  split; · rfl
+  split; · rfl
+  apply bind_no_panic _ _ (no_panic_cbcDecrypt' _ _ _)
+  intro _ _
+  unfold decryptPackage
+  split
+  · rfl
+  · exact no_panic_pkgLoop' i hk.2.1 (by omega) ht _ 0 (Or.inl rfl)
+
+/-- the missing guard (found by stating the theorem, confirmed on the real code): an EncryptedPackage
+stream of 4100 bytes makes `decryptPackage` slice `input[4104:4100]` -/
+theorem finding_agile_tail_chunk :
+    (agileDecrypt { infoLen := 1000, xmlOK := true, nKE := 1, blockSize := 16, hashLen := 64, keyBits := 256,
+                    spinCount := 1, saltOK := true, saltLen := 16, encKeyOK := true, encKeyLen := 32,
+                    kdSaltOK := true, pkgLen := 4100 }).isPanic = true := by
+  decide +kernel
+
 /-! ## unzip limits -/
 
 /-- the size check of `ReadZipReader` is the first thing done with an entry, before the branches that
